@@ -282,7 +282,10 @@ class ParseContext(ParserEngine):
         try:
             return exp(self)
         except TypeError as e:
-            if "arguments" in str(e):
+            # NOTE: retry only when calling exp itself failed to bind
+            #   its arguments, not for a TypeError raised inside of it
+            unbound = e.__traceback__ is not None and e.__traceback__.tb_next is None
+            if unbound and "arguments" in str(e):
                 return boundcall(exp, {}, self)
             raise
 
